@@ -85,8 +85,9 @@ func (it *Interp) unsupported(what string) {
 	panic(pathAbort{"unsupported", what + it.where()})
 }
 
-func (it *Interp) where() string {
-	g := it.cur
+func (it *Interp) where() string { return it.whereG(it.cur) }
+
+func (it *Interp) whereG(g *Goroutine) string {
 	if g == nil || len(g.stack) == 0 {
 		return ""
 	}
